@@ -14,18 +14,252 @@ import (
 // sequence, a sequence is emitted, the parser's field is re-pointed (fresh
 // allocation, a pool Get, or a reslice of the same array), the buffer is written.
 // Two renderings per function:
-//   own_<f>   : one list, conditions ignored (statements of if-bodies taken in textual order) -
-//               the coarse over-approximation of what one call can do;
-//   paths_<f> : one list PER CONTROL-FLOW PATH from entry to a return (or the end of the body):
-//               an if contributes its taken and its not-taken branch, a return ends the path, a
-//               switch contributes one path per clause (plus "no clause" without a default), a
-//               loop is accepted only when every iteration that goes on (falls out of the body,
-//               continue, break) performs no ownership action - then the loop contributes
-//               nothing, or the actions of an iteration that returns.  Conditions are not
-//               evaluated (every branch combination is a path), so the set over-approximates
-//               the feasible paths; what a merged list hides - an early return between the
-//               emit and the re-pointing of the field - is a path of its own here.
+//
+//	own_<f>   : one list, conditions ignored (statements of if-bodies taken in textual order) -
+//	            the coarse over-approximation of what one call can do;
+//	paths_<f> : one list PER CONTROL-FLOW PATH from entry to a return (or the end of the body):
+//	            an if contributes its taken and its not-taken branch, a return ends the path, a
+//	            switch contributes one path per clause (plus "no clause" without a default), a
+//	            loop is accepted only when every iteration that goes on (falls out of the body,
+//	            continue, break) performs no ownership action - then the loop contributes
+//	            nothing, or the actions of an iteration that returns.  Conditions are not
+//	            evaluated (every branch combination is a path), so the set over-approximates
+//	            the feasible paths; what a merged list hides - an early return between the
+//	            emit and the re-pointing of the field - is a path of its own here.
+//
+// POOLED LOCALS.  A function may also take buffers from the parser's pools into locals
+// (csiDispatch: `param := p.paramPool.Get()[:0]`, `csi.Parameters = p.paramListPool.Get()[:0]`).
+// Every designator (an identifier, or a field of a local struct - the sequence under
+// construction) that is assigned a pool Get is a buffer kind of its own, `KLoc i`, numbered per
+// function in order of appearance; it dies when the function returns.  Accepted statements about
+// a pooled local L:  L = <pool>.Get()[..] / make(..)  (re-pointed; a field of the sequence under
+// construction is part of that sequence from then on: OAlias),  L = append(L, x...)  (a write;
+// every buffer mentioned in x is attached to the sequence: OAlias),  L[i] = x  (a write),
+// L = L[a:b]  (OReplace L Reslice: the SAME array under a new view), p.emit(..L..).  Anything else
+// that keeps a reference to L (another variable, a call, a return, a parser field) is refused.
+// LOOPS whose iterations perform ownership actions are rendered as a loop segment: the action
+// lists of the iterations that go on (one per path through the body); lpaths_<f> is the list of
+// the function's paths as segment lists (SActs straight-line, SLoop any number of iterations in
+// any order), paths_<f> the same paths with every such loop executed zero times.
 var ownKinds = map[string]string{"intermediate": "KInter", "oscData": "KOsc", "apcData": "KApc", "dcs": "KDcs"}
+
+// pooled locals of the function being translated: designator -> index
+var (
+	curLocals     map[string]int
+	curLocalNames []string
+)
+
+func localKind(i int) string { return fmt.Sprintf("(KLoc %d)", i) }
+
+// desString: "x" for an identifier, "x.F" for a field of a local (not p) identifier
+func desString(e ast.Expr) (string, bool) {
+	switch v := e.(type) {
+	case *ast.Ident:
+		if v.Name == "p" || v.Name == "_" {
+			return "", false
+		}
+		return v.Name, true
+	case *ast.SelectorExpr:
+		if id, ok := v.X.(*ast.Ident); ok && id.Name != "p" {
+			return id.Name + "." + v.Sel.Name, true
+		}
+	}
+	return "", false
+}
+
+func lDes(e ast.Expr) (int, bool) {
+	d, ok := desString(e)
+	if !ok {
+		return 0, false
+	}
+	i, ok := curLocals[d]
+	return i, ok
+}
+
+func rooted(i int) bool { return strings.Contains(curLocalNames[i], ".") }
+
+// isPoolGet: p.<x>.Get() or a slice expression of it
+func isPoolGet(e ast.Expr) bool {
+	if sl, ok := e.(*ast.SliceExpr); ok {
+		e = sl.X
+	}
+	call, ok := e.(*ast.CallExpr)
+	if !ok {
+		return false
+	}
+	se, ok := call.Fun.(*ast.SelectorExpr)
+	if !ok || se.Sel.Name != "Get" {
+		return false
+	}
+	inner, ok := se.X.(*ast.SelectorExpr)
+	return ok && isIdent(inner.X, "p")
+}
+
+// aliasingLocal: e keeps a reference to the array of pooled local i (mentions outside len/cap/
+// string(..) and outside the operand of an index expression)
+func aliasingLocal(e ast.Node, i int) bool {
+	found := false
+	ast.Inspect(e, func(n ast.Node) bool {
+		switch c := n.(type) {
+		case *ast.CallExpr:
+			if id, ok := c.Fun.(*ast.Ident); ok && (id.Name == "string" || id.Name == "len" || id.Name == "cap") {
+				return false
+			}
+		case *ast.IndexExpr:
+			return false
+		}
+		if x, ok := n.(ast.Expr); ok {
+			if j, ok := lDes(x); ok && j == i {
+				found = true
+				return false
+			}
+		}
+		return true
+	})
+	return found
+}
+
+func anyLocalAliased(e ast.Node) bool {
+	for i := range curLocalNames {
+		if aliasingLocal(e, i) {
+			return true
+		}
+	}
+	return false
+}
+
+// findLocals registers the pooled locals of a function body and checks that every pool Get is the
+// right-hand side of an assignment to a parser field or to a local designator, and that the local
+// struct a designator is a field of is only built, filled field by field, and emitted
+func findLocals(name string, body *ast.BlockStmt) {
+	curLocals = map[string]int{}
+	curLocalNames = nil
+	gets, accepted := 0, 0
+	ast.Inspect(body, func(n ast.Node) bool {
+		switch v := n.(type) {
+		case *ast.CallExpr:
+			if isPoolGet(v) {
+				gets++
+			}
+		case *ast.AssignStmt:
+			if len(v.Lhs) == 1 && len(v.Rhs) == 1 && isPoolGet(v.Rhs[0]) {
+				if _, ok := pField(v.Lhs[0]); ok {
+					accepted++
+				} else if d, ok := desString(v.Lhs[0]); ok {
+					accepted++
+					if _, seen := curLocals[d]; !seen {
+						curLocals[d] = len(curLocalNames)
+						curLocalNames = append(curLocalNames, d)
+					}
+				}
+			}
+		}
+		return true
+	})
+	if gets != accepted {
+		die("ansi/parser.go: %s: a pool Get that is not assigned to a parser field or a local designator", name)
+	}
+	roots := map[string]bool{}
+	for _, d := range curLocalNames {
+		if k := strings.Index(d, "."); k >= 0 {
+			roots[d[:k]] = true
+		}
+	}
+	for root := range roots {
+		all, ok := 0, 0
+		ast.Inspect(body, func(n ast.Node) bool {
+			switch v := n.(type) {
+			case *ast.Ident:
+				if v.Name == root {
+					all++
+				}
+			case *ast.SelectorExpr:
+				if isIdent(v.X, root) {
+					ok++
+				}
+			case *ast.CallExpr:
+				if se, isSel := v.Fun.(*ast.SelectorExpr); isSel && isIdent(se.X, "p") && se.Sel.Name == "emit" && len(v.Args) == 1 && isIdent(v.Args[0], root) {
+					ok++
+				}
+			case *ast.AssignStmt:
+				if v.Tok == token.DEFINE && len(v.Lhs) == 1 && isIdent(v.Lhs[0], root) {
+					if _, lit := v.Rhs[0].(*ast.CompositeLit); lit {
+						ok++
+					}
+				}
+			}
+			return true
+		})
+		if all != ok {
+			die("ansi/parser.go: %s: the local %s that carries a pooled buffer is used other than field by field / in p.emit", name, root)
+		}
+	}
+}
+
+// localRHS: the ownership actions of  L = rhs  for pooled local i
+func localRHS(i int, rhs ast.Expr) []string {
+	k := localKind(i)
+	attach := func(acts []string) []string {
+		if rooted(i) {
+			return append(acts, "OAlias "+k)
+		}
+		return acts
+	}
+	if isPoolGet(rhs) {
+		return attach([]string{"OReplace " + k + " PoolGet"})
+	}
+	switch v := rhs.(type) {
+	case *ast.SliceExpr:
+		if j, ok := lDes(v.X); ok && j == i {
+			for _, ix := range []ast.Expr{v.Low, v.High, v.Max} {
+				if ix != nil && (anyLocalAliased(ix) || touchesField(ix)) {
+					die("%s: slice bound keeps a reference to a buffer", pos(rhs))
+				}
+			}
+			return []string{"OReplace " + k + " Reslice"}
+		}
+	case *ast.CallExpr:
+		if id, ok := v.Fun.(*ast.Ident); ok {
+			switch id.Name {
+			case "append":
+				if len(v.Args) >= 1 {
+					if j, ok := lDes(v.Args[0]); ok && j == i {
+						acts := []string{"OWrite " + k}
+						for _, a := range v.Args[1:] {
+							for _, kind := range ownKindOrder {
+								if aliasing(a, kind) {
+									acts = append(acts, "OAlias "+kind)
+								}
+							}
+							for j := range curLocalNames {
+								if aliasingLocal(a, j) {
+									if j == i {
+										die("%s: a pooled local appended to itself", pos(rhs))
+									}
+									acts = append(acts, "OAlias "+localKind(j))
+								}
+							}
+						}
+						return acts
+					}
+				}
+			case "make":
+				return attach([]string{"OReplace " + k + " Fresh"})
+			}
+		}
+	}
+	die("%s: assignment to the pooled local %s outside the ownership grammar", pos(rhs), curLocalNames[i])
+	return nil
+}
+
+func touchesField(n ast.Node) bool {
+	for _, kind := range ownKindOrder {
+		if e, ok := n.(ast.Expr); ok && aliasing(e, kind) {
+			return true
+		}
+	}
+	return false
+}
 
 var ownFuncs = []string{"clear", "collect", "escapeDispatch", "csiDispatch", "oscStart", "oscPut", "oscEnd", "hook", "put", "unhook", "apcUnhook", "apc"}
 
@@ -147,10 +381,27 @@ func simpleActs(s ast.Stmt) []string {
 				if _, ok := pField(l); ok {
 					die("%s: a parser buffer assigned in a multi-value assignment", pos(s))
 				}
+				if _, ok := lDes(l); ok {
+					die("%s: a pooled local assigned in a multi-value assignment", pos(s))
+				}
+			}
+			for _, r := range v.Rhs {
+				if anyLocalAliased(r) {
+					die("%s: a pooled local in a multi-value assignment", pos(s))
+				}
 			}
 			return nil
 		}
 		lhs, rhs := v.Lhs[0], v.Rhs[0]
+		if i, ok := lDes(lhs); ok {
+			if v.Tok != token.ASSIGN && v.Tok != token.DEFINE {
+				die("%s: compound assignment to a pooled local", pos(s))
+			}
+			return localRHS(i, rhs)
+		}
+		if anyLocalAliased(rhs) {
+			die("%s: a pooled local is stored somewhere else than in the sequence under construction", pos(s))
+		}
 		if k, ok := pField(lhs); ok {
 			if v.Tok != token.ASSIGN {
 				die("%s: compound assignment to a parser buffer", pos(s))
@@ -172,6 +423,8 @@ func simpleActs(s ast.Stmt) []string {
 				out = append(out, "OWrite "+k)
 			} else if isPDcsSub(ix.X, "Data") {
 				out = append(out, "OWrite KDcs")
+			} else if i, ok := lDes(ix.X); ok {
+				out = append(out, "OWrite "+localKind(i))
 			}
 		}
 		// X = ... p.buffer ... : the buffer is aliased into an outgoing (or pending) sequence,
@@ -193,12 +446,20 @@ func simpleActs(s ast.Stmt) []string {
 					die("%s: a parser buffer is passed to a call other than p.emit", pos(s))
 				}
 			}
+			if anyLocalAliased(v.X) {
+				die("%s: a pooled local is passed to a call other than p.emit", pos(s))
+			}
 			return nil
 		}
 		// string(p.apcData) copies; every other mention aliases
 		for _, kind := range ownKindOrder {
 			if aliasing(call.Args[0], kind) {
 				out = append(out, "OAlias "+kind)
+			}
+		}
+		for i := range curLocalNames {
+			if aliasingLocal(call.Args[0], i) {
+				out = append(out, "OAlias "+localKind(i))
 			}
 		}
 		out = append(out, "OEmit")
@@ -209,6 +470,9 @@ func simpleActs(s ast.Stmt) []string {
 					if aliasing(e, kind) {
 						die("%s: a parser buffer in a declaration", pos(s))
 					}
+				}
+				if anyLocalAliased(e) {
+					die("%s: a pooled local in a declaration", pos(s))
 				}
 				return false
 			}
@@ -291,6 +555,9 @@ func touches(n ast.Node) bool {
 			if _, ok := pField(e); ok {
 				found = true
 			}
+			if _, ok := lDes(e); ok {
+				found = true
+			}
 			if se, ok := e.(*ast.SelectorExpr); ok && isIdent(se.X, "p") && se.Sel.Name == "emit" {
 				found = true
 			}
@@ -310,6 +577,9 @@ func stmtPaths(s ast.Stmt) pathSet {
 			if aliasing(v.Cond, kind) {
 				die("%s: condition keeps a reference to a parser buffer", pos(s))
 			}
+		}
+		if anyLocalAliased(v.Cond) {
+			die("%s: condition keeps a reference to a pooled local", pos(s))
 		}
 		res := listPaths(v.Body.List)
 		var els pathSet
@@ -338,6 +608,9 @@ func stmtPaths(s ast.Stmt) pathSet {
 						die("%s: loop condition keeps a reference to a parser buffer", pos(s))
 					}
 				}
+				if anyLocalAliased(f.Cond) {
+					die("%s: loop condition keeps a reference to a pooled local", pos(s))
+				}
 			}
 		} else {
 			r := v.(*ast.RangeStmt)
@@ -347,12 +620,41 @@ func stmtPaths(s ast.Stmt) pathSet {
 					die("%s: range over a parser buffer", pos(s))
 				}
 			}
+			if anyLocalAliased(r.X) {
+				die("%s: range over a pooled local", pos(s))
+			}
 		}
 		b := listPaths(body.List)
-		if !allEmpty(b.normal) || !allEmpty(b.brk) || !allEmpty(b.cont) {
-			die("%s: a loop iteration that goes on performs ownership actions (paths would be unbounded)", pos(s))
+		if allEmpty(b.normal) && allEmpty(b.brk) && allEmpty(b.cont) {
+			return pathSet{normal: [][]string{{}}, returned: b.returned}
 		}
-		return pathSet{normal: [][]string{{}}, returned: b.returned}
+		// iterations that go on perform ownership actions: a loop segment.  Any number of
+		// iterations, each along any of the body's continuing paths, then the loop is left
+		// normally, by an iteration that breaks, or by one that returns.
+		bodies := dedup(append(append([][]string{}, b.normal...), b.cont...))
+		for _, set := range [][][]string{bodies, b.brk, b.returned} {
+			for _, p := range set {
+				for _, a := range p {
+					if isLoopTok(a) {
+						die("%s: nested loops that perform ownership actions", pos(s))
+					}
+				}
+			}
+		}
+		var rendered []string
+		for _, p := range bodies {
+			rendered = append(rendered, coqActs(p))
+		}
+		tok := "SLoop [" + strings.Join(rendered, "; ") + "]"
+		res := pathSet{normal: [][]string{{tok}}}
+		for _, x := range b.brk {
+			res.normal = append(res.normal, cat([]string{tok}, x))
+		}
+		for _, x := range b.returned {
+			res.returned = append(res.returned, cat([]string{tok}, x))
+		}
+		res.normal, res.returned = dedup(res.normal), dedup(res.returned)
+		return res
 	case *ast.SwitchStmt:
 		if v.Init != nil && touches(v.Init) {
 			die("%s: switch initialiser touches a parser buffer", pos(s))
@@ -380,6 +682,9 @@ func stmtPaths(s ast.Stmt) pathSet {
 		for _, r := range v.Results {
 			if touches(r) {
 				die("%s: a parser buffer is returned", pos(s))
+			}
+			if anyLocalAliased(r) {
+				die("%s: a pooled local is returned", pos(s))
 			}
 		}
 		return pathSet{returned: [][]string{{}}}
@@ -440,12 +745,47 @@ func listPaths(stmts []ast.Stmt) pathSet {
 
 func coqActs(acts []string) string { return "[" + strings.Join(acts, "; ") + "]" }
 
+func isLoopTok(a string) bool { return strings.HasPrefix(a, "SLoop ") }
+
+// noLoops: the path with every loop segment executed zero times
+func noLoops(p []string) []string {
+	out := []string{}
+	for _, a := range p {
+		if !isLoopTok(a) {
+			out = append(out, a)
+		}
+	}
+	return out
+}
+
+// coqSegs: the path as a list of segments
+func coqSegs(p []string) string {
+	var segs []string
+	var run []string
+	flush := func() {
+		if len(run) > 0 {
+			segs = append(segs, "SActs "+coqActs(run))
+			run = nil
+		}
+	}
+	for _, a := range p {
+		if isLoopTok(a) {
+			flush()
+			segs = append(segs, a)
+		} else {
+			run = append(run, a)
+		}
+	}
+	flush()
+	return "[" + strings.Join(segs, "; ") + "]"
+}
+
 func init() {
 	register("GenOwn", func(repo string) string {
 		f := parseFile(filepath.Join(repo, "ansi", "parser.go"))
 		var b strings.Builder
 		b.WriteString("From Vx Require Import model.ParserOwnTypes.\n\n")
-		var names, pnames []string
+		var names, pnames, lnames []string
 		for _, name := range ownFuncs {
 			fd := findFunc(f, "Parser", name)
 			if fd == nil {
@@ -453,6 +793,14 @@ func init() {
 			}
 			if fd == nil {
 				die("ansi/parser.go: function %s not found", name)
+			}
+			findLocals(name, fd.Body)
+			if len(curLocalNames) > 0 {
+				var ls []string
+				for i, d := range curLocalNames {
+					ls = append(ls, fmt.Sprintf("KLoc %d = %s", i, d))
+				}
+				fmt.Fprintf(&b, "(* %s: pooled locals %s *)\n", name, strings.Join(ls, ", "))
 			}
 			var acts []string
 			ownStmts(fd.Body.List, &acts)
@@ -463,15 +811,24 @@ func init() {
 				die("ansi/parser.go: %s: break/continue outside a loop or switch", name)
 			}
 			all := dedup(append(ps.returned, ps.normal...))
-			var rendered []string
+			var flat [][]string
+			var rendered, lrendered []string
 			for _, p := range all {
+				flat = append(flat, noLoops(p))
+				lrendered = append(lrendered, coqSegs(p))
+			}
+			for _, p := range dedup(flat) {
 				rendered = append(rendered, coqActs(p))
 			}
 			fmt.Fprintf(&b, "Definition paths_%s : list (list oact) := [%s].\n", name, strings.Join(rendered, "; "))
+			fmt.Fprintf(&b, "Definition lpaths_%s : list (list oseg) := [%s].\n", name, strings.Join(lrendered, "; "))
 			pnames = append(pnames, "paths_"+name)
+			lnames = append(lnames, "lpaths_"+name)
 		}
 		fmt.Fprintf(&b, "\nDefinition own_all : list (list oact) := [%s].\n", strings.Join(names, "; "))
 		fmt.Fprintf(&b, "\n(* one action list per control-flow path of each function, same order as own_all *)\nDefinition own_paths : list (list (list oact)) := [%s].\n", strings.Join(pnames, "; "))
+		fmt.Fprintf(&b, "\n(* the same paths as segment lists: loops whose iterations perform ownership actions are SLoop segments *)\nDefinition own_lpaths : list (list (list oseg)) := [%s].\n", strings.Join(lnames, "; "))
+		curLocals, curLocalNames = nil, nil
 		// any other function that assigns one of the buffers is outside the table: refuse
 		known := map[string]bool{}
 		for _, n := range ownFuncs {
@@ -489,6 +846,9 @@ func init() {
 							die("ansi/parser.go: %s assigns a parser buffer but is not in the ownership table", fd.Name.Name)
 						}
 					}
+				}
+				if c, ok := n.(*ast.CallExpr); ok && isPoolGet(c) {
+					die("ansi/parser.go: %s takes a buffer from a pool but is not in the ownership table", fd.Name.Name)
 				}
 				return true
 			})
